@@ -13,6 +13,7 @@ enum { eMatchScoreNone = 0 }; enum { XalanNode_ELEMENT_NODE = 1, XalanNode_ATTRI
 enum { NAME_XMLNS = 1 };     /* node names and values by identity; value 0 is the empty string */
 /* ghost: the attribute fetched last (its index in its element's attribute map), the node added last, whether it came from the element now being
    scanned; how many were added; the order state of the list */
+int g_cur_name, g_cur_value; bool g_default_seen, g_default_seen_before;   /* default-namespace declarations (xmlns=...) that passed the node test, nearest first */
 const XalanNode* g_cur_attr; size_t g_cur_index; bool g_any_added, g_last_same_element; size_t g_last_index; size_t g_count; bool g_reversed, g_flagged;
 int xv_arg_len(OpCodeMapPositionType p) __CPROVER_requires(1) __CPROVER_assigns() __CPROVER_ensures(__CPROVER_return_value >= 0 && __CPROVER_return_value < 1000) ;
 int xv_node_type(const XalanNode* n) __CPROVER_requires(n != 0) __CPROVER_assigns() __CPROVER_ensures(1) ;
@@ -21,15 +22,18 @@ const XalanNamedNodeMap* xv_attributes(const XalanNode* n) __CPROVER_requires(n 
 size_t xv_attr_count(const XalanNamedNodeMap* m) __CPROVER_requires(m != 0) __CPROVER_assigns() __CPROVER_ensures(1) ;
 XalanNode* xv_attr_item(const XalanNamedNodeMap* m, size_t i) __CPROVER_requires(m != 0) __CPROVER_assigns(g_cur_attr, g_cur_index)
 __CPROVER_ensures(__CPROVER_return_value != 0 && g_cur_attr == __CPROVER_return_value && g_cur_index == i) ;
-int xv_node_name(const XalanNode* n) __CPROVER_requires(n != 0) __CPROVER_assigns() __CPROVER_ensures(1) ;
-int xv_node_value(const XalanNode* n) __CPROVER_requires(n != 0) __CPROVER_assigns() __CPROVER_ensures(1) ;
+int xv_node_name(const XalanNode* n) __CPROVER_requires(n != 0) __CPROVER_assigns(g_cur_name) __CPROVER_ensures(g_cur_name == __CPROVER_return_value) ;
+int xv_node_value(const XalanNode* n) __CPROVER_requires(n != 0) __CPROVER_assigns(g_cur_value) __CPROVER_ensures(g_cur_value == __CPROVER_return_value) ;
 bool xv_is_ns_decl(int name) __CPROVER_requires(1) __CPROVER_assigns() __CPROVER_ensures(name == NAME_XMLNS ==> __CPROVER_return_value == true) ;
-eMatchScore xv_test(const XalanNode* attr) __CPROVER_requires(attr != 0) __CPROVER_assigns() __CPROVER_ensures(1) ;
+eMatchScore xv_test(const XalanNode* attr) __CPROVER_requires(attr != 0 && attr == g_cur_attr) __CPROVER_assigns(g_default_seen, g_default_seen_before)
+__CPROVER_ensures(g_default_seen_before == __CPROVER_old(g_default_seen) && g_default_seen == (__CPROVER_old(g_default_seen) || (g_cur_name == NAME_XMLNS && __CPROVER_return_value != eMatchScoreNone))) ;
 int xv_result_name(const MutableNodeRefList* l, size_t i) __CPROVER_requires(/* the duplicate scan stays inside the nodes found so far */ i < g_count) __CPROVER_assigns() __CPROVER_ensures(1) ;
 /* the element above: an ancestor precedes everything below it in document order, so whatever is added next is earlier than all nodes added so far */
 const XalanNode* xv_parent(const XalanNode* n) __CPROVER_requires(n != 0) __CPROVER_assigns(g_last_same_element) __CPROVER_ensures(g_last_same_element == false) ;
 void xv_add_node(MutableNodeRefList* l, const XalanNode* n)
 __CPROVER_requires(n != 0 && n == g_cur_attr && g_reversed == false && g_flagged == false)
+__CPROVER_requires(/* XPath 5.4: the default namespace of an element is the NEAREST xmlns declaration; xmlns="" undeclares it (no node), and no declaration further out counts once one was seen */
+    g_cur_name == NAME_XMLNS ==> (g_cur_value != 0 && g_default_seen_before == false))
 __CPROVER_requires(/* nodes are collected in strictly descending document order: within one element from the last attribute to the first */
     !(g_any_added == true && g_last_same_element == true) || g_cur_index < g_last_index)
 __CPROVER_assigns(g_any_added, g_last_same_element, g_last_index, g_count)
@@ -42,7 +46,7 @@ __CPROVER_assigns(g_flagged) __CPROVER_ensures(g_flagged == true) ;
 @@FN findNamespace@@
 void h_findNamespace(void)
 {
-    g_cur_attr = 0; size_t a, b; g_cur_index = a; g_last_index = b; g_any_added = false; g_last_same_element = false; g_count = 0; g_reversed = false; g_flagged = false;
+    g_cur_attr = 0; size_t a, b; g_cur_index = a; g_last_index = b; g_any_added = false; g_last_same_element = false; g_count = 0; g_reversed = false; g_flagged = false; g_default_seen = false; g_default_seen_before = false;
     XalanNode* c; int p, s; findNamespace(0, c, p, s, 0);
 }
 '''
@@ -62,7 +66,8 @@ R = [(r'assert\(subQueryResults\.empty\(\) == true\);', '', 1),
      (r'theNodeName == DOMServices::s_XMLNamespace', '(theNodeName == NAME_XMLNS)', 1),
      (r'theTester\(\*attr, XalanNode::ATTRIBUTE_NODE\)', 'xv_test(attr)', 1),
      (r'const XalanDOMString&\s+theNodeValue = attr->getNodeValue\(\);', 'const int theNodeValue = xv_node_value(attr);', 1),
-     (r'theNodeValue == DOMServices::s_emptyString', 'theNodeValue == 0', 1),
+     (r'theNodeValue == DOMServices::s_emptyString', 'theNodeValue == 0', (0, 1)),
+     (r'theNodeValue\.empty\(\) == true', '(theNodeValue == 0)', (0, 1)),
      (r'subQueryResults\.item\(lstIndex\)->getNodeName\(\) == theNodeName', 'xv_result_name(subQueryResults, lstIndex) == theNodeName', 1),
      (r'subQueryResults\.addNode\(attr\);', 'xv_add_node(subQueryResults, attr);', 1),
      (r'theCurrentNode->getParentNode\(\)', 'xv_parent(theCurrentNode)', 1),
@@ -71,12 +76,12 @@ R = [(r'assert\(subQueryResults\.empty\(\) == true\);', '', 1),
      (r'subQueryResults\.setReverseDocumentOrder\(\);', 'xv_set_reverse_document_order(subQueryResults);', (0, 1)),
      'SCOPE']
 
-GHOST = 'g_cur_attr, g_cur_index, g_any_added, g_last_same_element, g_last_index, g_count'
+GHOST = 'g_cur_attr, g_cur_index, g_any_added, g_last_same_element, g_last_index, g_count, g_cur_name, g_cur_value, g_default_seen, g_default_seen_before'
 L_OUTER = '''__CPROVER_assigns(theCurrentNode, nNSFound, defaultNSFound, %s)
-__CPROVER_loop_invariant(theCurrentNode != 0 && nNSFound == g_count && g_reversed == false && g_flagged == false && (g_any_added == true || g_any_added == false))
+__CPROVER_loop_invariant((defaultNSFound == true || defaultNSFound == false) && defaultNSFound == g_default_seen && theCurrentNode != 0 && nNSFound == g_count && g_reversed == false && g_flagged == false && (g_any_added == true || g_any_added == false))
 __CPROVER_loop_invariant(/* nothing found so far came from the element about to be scanned */ g_last_same_element == false)''' % GHOST
 L_ATTRS = '''__CPROVER_assigns(nAttrs, nNSFound, defaultNSFound, %s)
-__CPROVER_loop_invariant(nNSFound == g_count && g_reversed == false && g_flagged == false && (g_any_added == true || g_any_added == false) && (g_last_same_element == true || g_last_same_element == false))
+__CPROVER_loop_invariant((defaultNSFound == true || defaultNSFound == false) && defaultNSFound == g_default_seen && nNSFound == g_count && g_reversed == false && g_flagged == false && (g_any_added == true || g_any_added == false) && (g_last_same_element == true || g_last_same_element == false))
 __CPROVER_loop_invariant(/* every node found in this element has an index not below the attributes still to be scanned */ (g_any_added == true && g_last_same_element == true) ==> g_last_index >= nAttrs)
 __CPROVER_decreases(nAttrs)''' % GHOST
 L_DEDUPE = '''__CPROVER_assigns(lstIndex, foundNSMatch)
@@ -85,13 +90,13 @@ __CPROVER_decreases(nNSFound - lstIndex)'''
 
 UNIT = Unit(
     name='c12_namespace_axis',
-    props=['C12'],
+    props=['C12', 'C02'],
     functions=[Fn(XP, r'^XPath::findNamespace\(', 'findNamespace',
                   'OpCodeMapPositionType findNamespace(XPathExecutionContext* executionContext, XalanNode* context, OpCodeMapPositionType opPos, OpCodeMapValueType stepType, MutableNodeRefList* subQueryResults)',
                   rules=R, nloops=3, loops={0: L_OUTER, 1: L_ATTRS, 2: L_DEDUPE},
                   contract='''__CPROVER_requires(context != 0 && opPos >= 0 && opPos < 100000000)
-__CPROVER_requires(g_any_added == false && g_last_same_element == false && g_count == 0 && g_reversed == false && g_flagged == false)
-__CPROVER_assigns(g_cur_attr, g_cur_index, g_any_added, g_last_same_element, g_last_index, g_count, g_reversed, g_flagged)
+__CPROVER_requires(g_any_added == false && g_last_same_element == false && g_count == 0 && g_reversed == false && g_flagged == false && g_default_seen == false)
+__CPROVER_assigns(g_cur_name, g_cur_value, g_default_seen, g_default_seen_before, g_cur_attr, g_cur_index, g_any_added, g_last_same_element, g_last_index, g_count, g_reversed, g_flagged)
 __CPROVER_ensures(/* the result of the namespace axis is flagged document-ordered, after the descending collection was reversed */ g_flagged == true && g_reversed == true)''')],
     template=TEMPLATE,
     jobs=[Job('findNamespace', 'h_findNamespace', enforce=['findNamespace'],
@@ -99,6 +104,7 @@ __CPROVER_ensures(/* the result of the namespace axis is flagged document-ordere
                        'xv_result_name', 'xv_parent', 'xv_add_node', 'xv_reverse', 'xv_set_document_order'],
               loop_contracts=True, reach='all', timeout=600, min_obligations=10)],
     mutants=[
+        Mutant('empty_default_does_not_shadow', XP, r'foundNSMatch = defaultNSFound \|\|\s*\(theNodeValue == DOMServices::s_emptyString\);\s*defaultNSFound = true;', 'if (theNodeValue == DOMServices::s_emptyString)\n                                {\n                                    foundNSMatch = true;\n                                }\n                                else\n                                {\n                                    foundNSMatch = defaultNSFound;\n                                    defaultNSFound = true;\n                                }', expect=None),
         Mutant('attributes_scanned_forward', XP, r'XalanSize_t    nAttrs = attributeList->getLength\(\);\s*while \(nAttrs > 0\)\s*\{\s*--nAttrs;\s*XalanNode\* const    attr = attributeList->item\(nAttrs\);',
                'const XalanSize_t   nAttrs = attributeList->getLength();\n\n                for (XalanSize_t i = 0; i < nAttrs; ++i)\n                {\n                    XalanNode* const    attr = attributeList->item(i);', expect=None),
         Mutant('reverse_dropped', XP, r'(\n    subQueryResults\.reverse\(\);\n)(\n    subQueryResults\.setDocumentOrder\(\);\n\n    return opPos \+ argLen;\n\}\s*XPath::OpCodeMapPositionType\s*XPath::findNodesOnUnknownAxis)', r'\n\2', expect='flagged document-ordered only after'),
